@@ -14,7 +14,6 @@ import (
 	"github.com/philpearl/plenc"
 
 	"verif/mc"
-	"verif/ref"
 )
 
 // racePass is the complementary E5 pass (DESIGN §4): the same thread bodies as
@@ -29,10 +28,13 @@ func racePassSub(scenarios func(tier string) []scenario) func(args []string) int
 		for _, sc := range scenarios(tier) {
 			want := make([][]string, len(sc.threads))
 			for i, ops := range sc.threads {
-				want[i] = seqSpec(ops)
+				want[i] = seqSpecCfg(sc.cfg, ops)
 			}
 			for it := 0; it < iters; it++ {
-				p := NewPlenc(ref.Cfg{})
+				p := NewPlenc(sc.cfg)
+				for _, o := range sc.warm {
+					o.run(p)
+				}
 				got := make([][]string, len(sc.threads))
 				var wg sync.WaitGroup
 				start := make(chan struct{})
